@@ -129,6 +129,15 @@ def cmd_run(a):
                 res[p] = rc
                 print(f"{meta['id']:44s} {p} {'CAUGHT' if rc == 1 else 'MISSED' if rc == 0 else 'HARNESS-ERR'} {dt:6.1f}s {info}")
                 sys.stdout.flush()
+                if a.save_witness and rc == 1 and p == meta["property"]:
+                    # keep the shrunk failing input as a committed regression input (it passes on the unchanged tree)
+                    fails = sorted(glob.glob(os.path.join(d, "fail", "*.json")))
+                    if fails:
+                        w = json.load(open(fails[0]))
+                        w["detail"] = f"regression input: shrunk witness of seeded change {meta['id']} ({meta.get('needs', '')})"
+                        dest = os.path.join(ROOT, "replays", f"{p}-seed-{meta['id'].split('-', 1)[1]}.json")
+                        json.dump(w, open(dest, "w"), indent=1)
+                        print("   witness ->", dest)
             if res.get(meta["property"]) != 1:
                 bad += 1
         finally:
@@ -140,6 +149,6 @@ ap = argparse.ArgumentParser()
 sub = ap.add_subparsers(dest="cmd")
 v = sub.add_parser("verify"); v.add_argument("worktree"); v.add_argument("seed_id"); v.add_argument("property"); v.add_argument("--needs", default="")
 sub.add_parser("recheck")
-r = sub.add_parser("run"); r.add_argument("--only"); r.add_argument("--tier", default="quick"); r.add_argument("--all-checks", action="store_true")
+r = sub.add_parser("run"); r.add_argument("--only"); r.add_argument("--tier", default="quick"); r.add_argument("--all-checks", action="store_true"); r.add_argument("--save-witness", action="store_true")
 a = ap.parse_args()
 sys.exit(cmd_verify(a) if a.cmd == "verify" else cmd_recheck(a) if a.cmd == "recheck" else cmd_run(a))
